@@ -2,7 +2,7 @@
 from .driver import Case, Suite
 from .ringgen import random_sched
 
-HEADER = "From RM Require Import RingModel FullSync Chan Multi."
+HEADER = "From RM Require Import RingModel FullSync Chan Multi MultiFS."
 
 def tok(o):
     n, a = o
@@ -14,10 +14,11 @@ def cop(o):
 
 def mk_case(chan, N, M, k, progs, sched, meta=None, probe=False):
     line = "multi chan=%s N=%d M=%d k=%d%s ; " % (chan, N, M, k, " probe=1" if probe else "") + " ; ".join(" ".join(tok(o) for o in p) for p in progs) + " ; S " + " ".join(map(str, sched))
-    if chan != "arc_atomic" or any(n in ("createv", "res", "sres", "cres") for p in progs for n, a in p):
+    MRUN = {"arc_atomic": "run_multi_arc_atomic", "arc_full_sync": "MFS.run_multi_arc_full_sync"}
+    if chan not in MRUN or any(n in ("createv", "res", "sres", "cres") for p in progs for n, a in p):
         coq = None                                       # no lock-step model for this kind / these operations: oracle only
     else:
-        coq = "run_multi_arc_atomic%s %d %d %d [%s] [%s]%%nat" % ("_probe" if probe else "", N, M, k, "; ".join("[" + "; ".join(cop(o) for o in p) + "]" for p in progs), "; ".join(map(str, sched)))
+        coq = "%s%s %d %d %d [%s] [%s]%%nat" % (MRUN[chan], "_probe" if probe else "", N, M, k, "; ".join("[" + "; ".join(cop(o) for o in p) + "]" for p in progs), "; ".join(map(str, sched)))
     m = dict(chan=chan, N=N, M=M, k=k, progs=progs, sched=sched, probe=probe); m.update(meta or {})
     return Case(line, coq, m)
 
